@@ -402,10 +402,21 @@ static void pr_args(struct uftrace_fstack_args *args)
 		else {
 			long long val = 0;
 print_raw:
-			memcpy(&val, ptr, spec->size);
+			if (spec->size > (int)sizeof(val)) {
+				/* long double: wider than 'val', print its bytes (most significant first) */
+				int k;
 
-			pr_out("  args[%d] %c%d: 0x%0*llx\n", i, ARG_SPEC_CHARS[spec->fmt],
-			       spec->size * 8, spec->size * 2, val);
+				pr_out("  args[%d] %c%d: 0x", i, ARG_SPEC_CHARS[spec->fmt], spec->size * 8);
+				for (k = spec->size - 1; k >= 0; k--)
+					pr_out("%02x", ((unsigned char *)ptr)[k]);
+				pr_out("\n");
+			}
+			else {
+				memcpy(&val, ptr, spec->size);
+
+				pr_out("  args[%d] %c%d: 0x%0*llx\n", i, ARG_SPEC_CHARS[spec->fmt],
+				       spec->size * 8, spec->size * 2, val);
+			}
 
 			size = spec->size;
 		}
@@ -483,9 +494,20 @@ static void pr_retval(struct uftrace_fstack_args *args)
 		else {
 			long long val = 0;
 
-			memcpy(&val, ptr, spec->size);
-			pr_out("  retval %c%d: 0x%0*llx\n", ARG_SPEC_CHARS[spec->fmt],
-			       spec->size * 8, spec->size * 2, val);
+			if (spec->size > (int)sizeof(val)) {
+				/* long double: wider than 'val', print its bytes (most significant first) */
+				int k;
+
+				pr_out("  retval %c%d: 0x", ARG_SPEC_CHARS[spec->fmt], spec->size * 8);
+				for (k = spec->size - 1; k >= 0; k--)
+					pr_out("%02x", ((unsigned char *)ptr)[k]);
+				pr_out("\n");
+			}
+			else {
+				memcpy(&val, ptr, spec->size);
+				pr_out("  retval %c%d: 0x%0*llx\n", ARG_SPEC_CHARS[spec->fmt],
+				       spec->size * 8, spec->size * 2, val);
+			}
 
 			size = spec->size;
 		}
